@@ -77,6 +77,11 @@ def run(ctx: Ctx, rep: Report) -> None:
     # renumbering applies the permutation in one direction to every view
     from .permdir import permdir
     permdir(ctx, rep)
+    # index conventions: out-of-range cycles, negative points, zero repeats
+    from . import circuit_edit
+    circuit_edit.oor(ctx, rep)
+    circuit_edit.normpoint(ctx, rep)
+    circuit_edit.imul(ctx, rep)
     # by-value editing (remove, point, count) rests on Operation equality
     from ..rules.taut import rule_taut
     rule_taut(ctx, rep, ('bqskit/ir/',), 300)
@@ -564,10 +569,17 @@ def seqord(ctx: Ctx, rep: Report) -> None:
         _self_call(c) == 'batch_pop' and c.args
         and norm(c.args[0]) == 'region.points' for c in n.calls()
     )
+    # the block goes back as one CircuitGate: inserted at the region's first
+    # cycle or, when that cycle is past the end after the pop (fix 4ebef7d),
+    # appended
     ic = lambda n: any(
-        _self_call(c) == 'insert_circuit' and len(c.args) >= 4
-        and norm(c.args[0]) == 'region.min_cycle'
-        and norm(c.args[3]) == 'True' for c in n.calls()
+        (_self_call(c) == 'insert_circuit' and len(c.args) >= 4
+         and norm(c.args[0]) == 'region.min_cycle'
+         and norm(c.args[3]) == 'True')
+        or (_self_call(c) == 'append_circuit' and len(c.args) >= 3
+            and norm(c.args[0]) == 'circuit'
+            and norm(c.args[2]) == 'True')
+        for c in n.calls()
     )
     rep.count()
     rep.check(
